@@ -1490,7 +1490,9 @@ func (fcomp *fcomp) plus(e *syntax.BinaryExpr) {
 	out := args[:0] // compact in situ
 	for i := 0; i < len(args); {
 		j := i + 1
-		if code := addable(args[i].x); code != 0 {
+		// A run of list or tuple displays may be folded only at the start
+		// of the sum: x + [] + [f()] must not evaluate f() if x + [] fails.
+		if code := addable(args[i].x); code != 0 && (i == 0 || code == 's' || code == 'b') {
 			for j < len(args) && addable(args[j].x) == code {
 				j++
 			}
